@@ -35,6 +35,7 @@ type g2lFn struct {
 	fnObj   *types.Func           // the function being translated (go2lean_ptr.go)
 	inOut   []*types.Var          // pointer parameters returned as extra results (go2lean_inout.go)
 	eff     *g2lEffFn             // writes through pointers, effect loops (go2lean_effects.go)
+	own     *g2lOwnState          // owned locals, cursors (go2lean_own.go)
 }
 
 func (f *g2lFn) fail(format string, a ...any) {
